@@ -55,6 +55,19 @@ pub fn run(args: &Args) {
     worker.join().ok();
 }
 
+fn sub_terms(ctx: &Context, root: ExprRef) -> std::collections::HashSet<ExprRef> {
+    let mut out = std::collections::HashSet::new();
+    let mut todo = vec![root];
+    while let Some(e) = todo.pop() {
+        if out.insert(e) {
+            let mut cs = vec![];
+            ctx[e].collect_children(&mut cs);
+            todo.extend(cs);
+        }
+    }
+    out
+}
+
 fn worker_run(args: &Args, progress: Arc<AtomicU64>, current: Arc<Mutex<String>>) {
     let mut rng = Rng::new(args.seed);
     let mut out = std::fs::File::create(&args.out).expect("out file");
@@ -219,6 +232,42 @@ fn worker_run(args: &Args, progress: Arc<AtomicU64>, current: Arc<Mutex<String>>
                             if !ctx[gc].is_symbol() && !exprs.contains(&gc) && exprs.len() < 14 && r.chance(1, 2) {
                                 exprs.push(gc);
                             }
+                        }
+                    }
+                }
+            }
+        }
+        // stale-entry sensitivity: INTERMEDIATE results of a member (nodes the driver rewrote on the way to the
+        // member's result, read from a scratch instance's cache) become members too, so that one of the two
+        // histories asks for an expression that already is a non-final key of the cache
+        if r.chance(1, 2) {
+            let roots = exprs.clone();
+            for e in roots.iter() {
+                if !r.chance(1, 2) || exprs.len() >= 16 {
+                    continue;
+                }
+                let e = *e;
+                let entries: Result<Vec<(ExprRef, ExprRef)>, String> = guarded(|| {
+                    let mut s = Simplifier::new(SparseExprMap::default());
+                    s.simplify(&mut ctx, e);
+                    s.verif_cache_entries()
+                });
+                if let Ok(mut entries) = entries {
+                    entries.sort();
+                    let mut cands: Vec<ExprRef> = entries
+                        .iter()
+                        .filter(|(k, v)| k != v && !ctx[*k].is_symbol() && !exprs.contains(k) && tree_size(&ctx, *k, 400) < 400)
+                        .map(|(k, _)| *k)
+                        .collect();
+                    // prefer nodes that are not sub-terms of the member (i.e. genuine intermediates)
+                    let subs = sub_terms(&ctx, e);
+                    cands.sort_by_key(|c| subs.contains(c));
+                    let n_inter = cands.iter().filter(|c| !subs.contains(c)).count();
+                    stats.bump("intermediates_available", &format!("{}", n_inter.min(5)));
+                    for c in cands.into_iter().take(2) {
+                        if exprs.len() < 16 {
+                            exprs.push(c);
+                            stats.inc("intermediate_members");
                         }
                     }
                 }
